@@ -29,7 +29,8 @@ def rand_summary(rng, fam):
     if fam == "tf64":
         return [rng.choice(["3ff0000000000000", "4000000000000000", "bff8000000000000", "0000000000000000", "7ff0000000000000", f64hex(rng.random())])]
     if fam == "ti64":
-        return ["%x" % rng.choice([0, 1, 2, 2**63 - 1, 2**64 - 1, 2**63, rng.randrange(2**64)])]
+        # small magnitudes: the library's default update policy is `summary += update` on int64_t (signed overflow is the user's problem)
+        return ["%x" % (rng.choice([0, 1, 2, -1, -2, rng.randrange(-2**40, 2**40)]) % 2**64)]
     if fam in ("tstr", "tcst"):
         n = rng.choice([0, 0, 1, 2, 3, 5, 8, 13])
         return ["".join("%02x" % rng.randrange(256) for _ in range(n)) or "-"]
